@@ -1,6 +1,7 @@
 package rules
 
 import (
+	"fmt"
 	"golang.org/x/tools/go/ssa"
 
 	"s2scheck/internal/flow"
@@ -136,4 +137,67 @@ func checkClientRecvLimit(c *Ctx, res *report.Result, rule string) {
 	}
 	walk(lim, 0)
 	res.Check(reaches, rule, construct, instrPos(c.Prog, lim), "grpc.WithDefaultCallOptions(.., grpc.MaxCallRecvMsgSize(128 MiB), ..)", "the receive limit option is built but not handed to grpc.WithDefaultCallOptions")
+}
+
+// checkYamuxKeepAlive (O10.12): both session factories (the establisher's and the receiver's) hand yamux a config
+// with keep-alive enabled: the config passed to yamux.Client / yamux.Server is the result of yamux.DefaultConfig()
+// (which enables it) with no store of EnableKeepAlive = false, or a literal that sets EnableKeepAlive = true. The
+// keep-alive goroutine is the only code that turns an unanswered ping into a closed session; without it a silently
+// dead peer keeps its pool slot for ever and the pool never heals.
+func checkYamuxKeepAlive(c *Ctx, res *report.Result, rule string) {
+	const yamuxPkg = "github.com/hashicorp/yamux"
+	n := 0
+	for _, name := range []string{"NewMuxEstablisherProvider", "NewMuxReceiverProvider"} {
+		f := resolve(c, res, rule, anchor{"transport/mux", "", name})
+		if f == nil {
+			continue
+		}
+		for _, g := range append([]*ssa.Function{f}, flow.AnonFuncsDeep(f)...) {
+			for _, call := range flow.Calls(g) {
+				sc := flow.StaticCallee(call.Common())
+				if sc == nil || sc.Pkg == nil || sc.Pkg.Pkg.Path() != yamuxPkg || (sc.Name() != "Client" && sc.Name() != "Server") {
+					continue
+				}
+				n++
+				cfg := flow.Strip(flow.ResolveLoad(call.Common().Args[1]))
+				construct := name + ": yamux." + sc.Name() + " gets a config with keep-alive enabled"
+				bad := ""
+				switch x := cfg.(type) {
+				case *ssa.Call:
+					if d := flow.StaticCallee(&x.Call); d == nil || d.Pkg == nil || d.Pkg.Pkg.Path() != yamuxPkg || d.Name() != "DefaultConfig" {
+						bad = "the config comes from " + flow.Describe(cfg) + ", not from yamux.DefaultConfig()"
+					}
+				case *ssa.Alloc:
+					fs, _ := flow.FieldStores(x)
+					v := fs["EnableKeepAlive"]
+					if v == nil {
+						v = flow.StructFieldOrigin(x, "EnableKeepAlive", 0)
+					}
+					if b, isB := flow.ConstBool(v); v == nil || !isB || !b {
+						bad = "the config is a literal that does not set EnableKeepAlive (its zero value is false)"
+					}
+				case *ssa.Const:
+					// nil config: yamux uses DefaultConfig()
+				default:
+					bad = "the origin of the config (" + flow.Describe(cfg) + ") is not recognised"
+				}
+				// no store of EnableKeepAlive = false anywhere in the factory
+				for _, b := range g.Blocks {
+					for _, ins := range b.Instrs {
+						if st, ok := ins.(*ssa.Store); ok {
+							if fa, ok := st.Addr.(*ssa.FieldAddr); ok && flow.FieldName(fa.X.Type(), fa.Field) == "EnableKeepAlive" {
+								if v, isB := flow.ConstBool(st.Val); !isB || !v {
+									bad = "EnableKeepAlive is switched off (or set from a non-constant) at " + instrPos(c.Prog, st)
+								}
+							}
+						}
+					}
+				}
+				res.Check(bad == "", rule, construct, instrPos(c.Prog, call), "yamux.DefaultConfig() (keep-alive on)", bad+": yamux then never starts its keep-alive goroutine, the only code that closes a session whose peer stopped answering - a silently dead session keeps its permit and is never replaced")
+			}
+		}
+	}
+	if n < 2 {
+		res.Undec(rule, "yamux session factories", "", fmt.Sprintf("%d yamux.Client / yamux.Server calls found, 2 confirmed by hand", n))
+	}
 }
